@@ -14,6 +14,17 @@ import FP.Proofs.C05KFDC
 import FP.Proofs.C06IncompatPipeline
 import FP.Props.C04
 import FP.Props.C06
+import FP.Model.PathSafetyRows
+import FP.Proofs.C05DagBase
+import FP.Proofs.C05DagLayers
+import FP.Proofs.C05DagConstraints
+import FP.Proofs.C05DagOpt
+import FP.Proofs.C05DagClasses
+import FP.Proofs.C05DagFlowSafe
+import FP.Proofs.C05DagPerm
+import FP.Proofs.DecompExample
+import FP.Props.C03
+import FP.Props.C09
 /-!
 # C05 — optimisation options never change solvability or the optimal objective
 
@@ -41,9 +52,33 @@ the real constructors by the K2 adapters `kcoverc_safety`, `kfdc_safety`):
   `mapping` numbers the strongly connected components (`SccLabelling`) and the captured antichain is pairwise
   unreachable in the expanded condensation (`CondAntichain`, which C17 proves for the extraction).
 
-Not covered by theorems (oracle only, see `harness/props/c05.py`): the DAG models' options, the error models'
-instances of the generic T3, `kFlowDecompCycles` with `given_weights` (the rows `weights_i = w_i` are not
-layer-symmetric; the library uses that configuration only as a heuristic upper bound), lower-bound options.
+**The safety options of the DAG (path) models** (third part; model `FP/Model/PathSafetyRows.lean`, tied to the real
+constructors by the K2 adapters `kfd_safety`, `kcover_safety`, `klae_safety`, `kmpe_safety`). On this tree
+`AbstractPathModelDAG.create_solver_and_paths` never calls `_apply_safety_optimizations`, so the six flags reach
+the LP in one way only: under `optimize_with_safety_as_subpath_constraints` the safe lists assembled by `__init__`
+join the subpath constraints.
+
+* `dag_safety_flags_lp_identical`, `dag_safety_fragment_shape` — without that flag the LP of `kFlowDecomp`,
+  `kPathCover`, `kLeastAbsErrors`, `kMinPathError` is, term by term, the LP built without any option; with it, the
+  option-free LP of the input with the extended constraint list (`dag_safety_lp_is_extended_input`);
+* `dag_safe_lists_in_layers` — every list that `__init__` assembles (safe paths: C06 T1; safe sequences of trusted
+  edges and of subpath constraints of full coverage: C06 T2, C10 `constraint_honoured`) runs inside one layer of
+  every solution whose layers use all trusted edges;
+* `dag_append_constraints`, `dag_drop_constraints` — appending such lists keeps the LP satisfiable (C10
+  `constraint_complete` re-chooses the `r` columns; the appended lists share the coverage fraction of the user's
+  constraints, which only weakens them), dropping them keeps the same assignment feasible;
+* `layer_perm_invariant_dag` (`_kcover`, `_kfd`) — T1 for the DAG encoders (not needed on this tree: no safety
+  row distinguishes a layer);
+* `dag_safety_options_preserve_optimum` (generic), `kcover_safety_options_preserve_optimum`,
+  `kfd_safety_options_preserve_feasibility` — for **every** subset of the six flags; "every trusted edge is used by
+  some path of every solution" is derived for the two classes (`kcover_uses_trusted`, `kfd_uses_trusted`).
+  `kFlowDecomp`'s flow-safe paths (`external_safe_paths`) are covered as well: they exist only when nothing is
+  ignored (`kfdExternalOK`, fix 3d0fcdd) and then lie in some path of every solution
+  (`kfd_flow_safe_paths_in_layers`, from C02 `kfd_exact` and C06 `excess_flow_safe`).
+
+Not covered by theorems (oracle only, see `harness/props/c05.py`): the error models' instances of the generic
+theorems, `kFlowDecompCycles` with `given_weights` (the rows `weights_i = w_i` are not layer-symmetric; the library
+uses that configuration only as a heuristic upper bound), the DAG models with given weights, lower-bound options.
 -/
 namespace FP.Props.C05
 open FP FP.Spec
@@ -392,5 +427,285 @@ example : ∃ a, Sat a (kfdcLPS FP.Props.C04.readmeInp none
   exact (kfdc_safety_options_preserve_feasibility FP.Props.C04.readmeInp FP.Props.C04.readme_wf
     FP.Props.C04.readme_names readmeSeq readmeSeq [] readme_data readmeOpts
     (fun _ h => nomatch h) (by decide +kernel) (fun _ => by decide +kernel)).1 hbase
+
+/-! ## the safety options of the DAG (path) models -/
+
+/-- **`dag_safety_flags_lp_identical`.** Whatever safe lists were computed and whatever the other five flags say:
+without `optimize_with_safety_as_subpath_constraints` the LP that the constructor of each of the four DAG classes
+builds (K2: `kfdLPS` … are the real LPs) is the LP built without any option. -/
+theorem dag_safety_flags_lp_identical (lists : List (List Edge)) (o : PathSafetyOpts) (h : o.asSubpath = false) :
+    (∀ inp : FlowInput, kfdLPS inp (pathSafetyExtra lists o) = kfdLP inp) ∧
+    (∀ inp : FlowInput, kcoverLPS inp (pathSafetyExtra lists o) = kcoverLP inp) ∧
+    (∀ inp : ErrInput, klaeLPS inp (pathSafetyExtra lists o) = klaeLP inp) ∧
+    (∀ inp : MpeInput, kmpeLPS inp (pathSafetyExtra lists o) = kmpeLP inp) :=
+  ⟨fun inp => FP.c05d_kfdLPS_off inp lists o h, fun inp => FP.c05d_kcoverLPS_off inp lists o h,
+   fun inp => FP.c05d_klaeLPS_off inp lists o h, fun inp => FP.c05d_kmpeLPS_off inp lists o h⟩
+
+/-- what `__init__` + `create_solver_and_paths` leave behind, for every subset of the flags: no row, no key of
+`edges_set_to_zero` / `edges_set_to_one`; the safe lists as additional subpath constraints iff
+`optimize_with_safety_as_subpath_constraints` -/
+theorem dag_safety_fragment_shape (s : STGraph) (c : PathCfg) (X : List Edge)
+    (external : Option (List (List Edge))) (o : PathSafetyOpts) (fr : PathSafetyFrag)
+    (h : pathSafetyPipeline s c X external o = .ok fr) :
+    fr.rows = [] ∧ fr.zero = [] ∧ fr.one = [] ∧
+    ∃ lists, pathSafeLists s c X external o = .ok lists ∧
+      fr.constraints = if o.asSubpath then lists else [] := by
+  obtain ⟨lists, hl, rfl⟩ := FP.c05d_pipeline_frag s c X external o fr h
+  exact ⟨rfl, rfl, rfl, lists, hl, rfl⟩
+
+/-- with the flag on, the LP is the option-free LP of the input whose subpath constraints are extended -/
+theorem dag_safety_lp_is_extended_input (lists : List (List Edge)) (o : PathSafetyOpts) :
+    (∀ inp : FlowInput, kfdLPS inp (pathSafetyExtra lists o) = kfdLP (inp.withSafety (pathSafetyExtra lists o))) ∧
+    (∀ inp : FlowInput,
+      kcoverLPS inp (pathSafetyExtra lists o) = kcoverLP (inp.withSafety (pathSafetyExtra lists o))) ∧
+    (∀ inp : ErrInput, klaeLPS inp (pathSafetyExtra lists o) = klaeLP (inp.withSafety (pathSafetyExtra lists o))) ∧
+    (∀ inp : MpeInput, kmpeLPS inp (pathSafetyExtra lists o) = kmpeLP (inp.withSafety (pathSafetyExtra lists o))) :=
+  ⟨fun inp => FP.c05d_kfdLPS_eq inp lists o, fun inp => FP.c05d_kcoverLPS_eq inp lists o,
+   fun inp => FP.c05d_klaeLPS_eq inp lists o, fun inp => FP.c05d_kmpeLPS_eq inp lists o⟩
+
+/-- **`dag_safe_lists_in_layers`.** `a` satisfies `_encode_paths` on a well-formed s-t DAG and every trusted edge is
+used by some layer. Then every list that `__init__` assembles — the univocal extensions of the trusted edges
+(`safe_paths`, C06 T1), the bridge extensions of the trusted edges and of the subpath constraints of full
+coverage (`safe_sequences`, C06 T2; a constraint of full coverage lies completely in the layer responsible for it,
+C10) — lies completely in one layer: `x(e,i) = 1` for all its edges. Lists supplied from outside are assumed to
+do so (`hext`); `hpos`: positive lengths on the constraints when they are covered by length. -/
+theorem dag_safe_lists_in_layers (s : STGraph) (c : PathCfg) (a : Asg) (hwf : STWF s)
+    (hsat : Sat a (encodePaths s c)) (X : List Edge) (hX : ∀ x ∈ X, x ∈ s.g.edges)
+    (hcover : ∀ x ∈ X, ∃ i, i < c.k ∧ a (edgeVar x i) = 1)
+    (external : Option (List (List Edge)))
+    (hext : ∀ l, external = some l → ∀ q ∈ l, SomeLayerHas s a c.k q)
+    (hcons : ∀ con ∈ c.constraints, ∀ e ∈ con, e ∈ s.g.edges)
+    (hpos : c.coverageLength = some 1 → ∀ con ∈ c.constraints, ∀ e ∈ con, 0 < c.len e)
+    (o : PathSafetyOpts) (lists : List (List Edge)) (h : pathSafeLists s c X external o = .ok lists) :
+    ∀ q ∈ lists, ∃ i, i < c.k ∧ ∀ e ∈ q, e ∈ s.g.edges ∧ a (edgeVar e i) = 1 :=
+  FP.c05d_safeLists_in_layers s c a hwf hsat X hX hcover external hext hcons hpos o lists h
+
+/-- **`dag_append_constraints`.** Appending lists each of which lies completely in some layer keeps the LP of
+`_encode_paths` satisfiable; only the `r` columns get new values (C10 `constraint_complete`). The appended lists
+share the user's coverage fraction: with a fraction below 1 they are weaker than containment, so nothing is lost;
+a "fraction" above 1 (never checked when the user passes no constraint) is excluded by `hcov` / `hcl`. -/
+theorem dag_append_constraints (s : STGraph) (c : PathCfg) (a : Asg) (hwf : STWF s)
+    (hsat : Sat a (encodePaths s c)) (hcons : ∀ con ∈ c.constraints, ∀ e ∈ con, e ∈ s.g.edges)
+    (E : List (List Edge)) (hE : ∀ q ∈ E, ∃ i, i < c.k ∧ ∀ e ∈ q, e ∈ s.g.edges ∧ a (edgeVar e i) = 1)
+    (hcov : c.coverageLength = none → c.coverage ≤ 1) (hcl : ∀ cl, c.coverageLength = some cl → cl ≤ 1)
+    (hlen : ∀ e ∈ s.g.edges, 0 ≤ c.len e) :
+    ∃ a', Sat a' (encodePaths s { c with constraints := c.constraints ++ E }) ∧
+      ∀ v, v.isR = false → a' v = a v :=
+  FP.c05d_append_constraints hwf hsat hcons E hE hcov hcl hlen
+
+/-- … and dropping appended constraints keeps an assignment feasible -/
+theorem dag_drop_constraints (s : STGraph) (c : PathCfg) (a : Asg) (E : List (List Edge))
+    (h : Sat a (encodePaths s { c with constraints := c.constraints ++ E })) : Sat a (encodePaths s c) :=
+  FP.c05d_drop_constraints E h
+
+/-- **generic C05 for the DAG models, every subset of the six flags.** A DAG model = `_encode_paths` followed by
+class-specific columns / rows / objective `rest` that do not mention the `r` columns (`RestNoR`). If every
+solution uses every trusted edge in some layer and contains the externally supplied lists, the LP with the
+options (`pathCoreS … fr` for the fragment `fr` the constructor computes) is feasible iff the LP without them is,
+and both have the same minimum. `ConstraintDomain`: constraints made of graph edges, coverage fraction `≤ 1`,
+lengths `≥ 0`, and `> 0` on the constraints when they are covered completely by length. -/
+theorem dag_safety_options_preserve_optimum (s : STGraph) (c : PathCfg) (hwf : STWF s)
+    (D : ConstraintDomain s c) (rest : LP) (hR : RestNoR rest) (X : List Edge) (hX : ∀ x ∈ X, x ∈ s.g.edges)
+    (hcover : ∀ a, Sat a ((encodePaths s c).append rest) → ∀ x ∈ X, ∃ i, i < c.k ∧ a (edgeVar x i) = 1)
+    (external : Option (List (List Edge)))
+    (hext : ∀ a, Sat a ((encodePaths s c).append rest) → ∀ l, external = some l → ∀ q ∈ l, SomeLayerHas s a c.k q)
+    (o : PathSafetyOpts) (fr : PathSafetyFrag) (h : pathSafetyPipeline s c X external o = .ok fr) :
+    ((∃ a, Sat a ((encodePaths s c).append rest)) ↔ (∃ a, Sat a ((pathCoreS s c fr).append rest))) ∧
+    (∀ v, IsMin (fun a => Sat a ((encodePaths s c).append rest)) (fun a => evalTerms a rest.obj) v ↔
+      IsMin (fun a => Sat a ((pathCoreS s c fr).append rest)) (fun a => evalTerms a rest.obj) v) :=
+  FP.c05d_generic_preserves hwf D rest hR X hX hcover external hext o fr h
+
+/-- **T1 for the DAG models (`layer_perm_invariant_dag`).** `_encode_paths`: a satisfying assignment stays one when
+the layers are permuted (`permLayersD` renames `edge(u,v,i)`, `position(u,v,i)`, `r(i,j)`, `path_length<i>`, …).
+No row that the safety options add on this tree distinguishes a layer, so the option theorems above do not need
+this; it is the symmetry a per-layer fixing routine would rest on. -/
+theorem layer_perm_invariant_dag (s : STGraph) (c : PathCfg) (a : Asg) (π : LayerPerm c.k)
+    (h : Sat a (encodePaths s c)) : Sat (a ∘ permLayersD π.fwd) (encodePaths s c) :=
+  FP.encodePaths_perm s c a π _ (permLayersD_isLayerRenaming π.fwd) h
+
+/-- T1 for `kPathCover` (no objective) -/
+theorem layer_perm_invariant_kcover (inp : FlowInput) (a : Asg) (π : LayerPerm inp.cfg.k)
+    (h : Sat a (kcoverLP inp)) :
+    Sat (a ∘ permLayersD π.fwd) (kcoverLP inp) ∧
+    evalTerms (a ∘ permLayersD π.fwd) (kcoverLP inp).obj = evalTerms a (kcoverLP inp).obj :=
+  FP.kcoverLP_perm inp a π _ (permLayersD_isLayerRenaming π.fwd) h
+
+/-- T1 for `kFlowDecomp` (no given weights): the weights and products move with their layers -/
+theorem layer_perm_invariant_kfd (inp : FlowInput) (a : Asg) (π : LayerPerm inp.cfg.k)
+    (h : Sat a (kfdLP inp)) :
+    Sat (a ∘ permLayersD π.fwd) (kfdLP inp) ∧
+    (∀ e i, (a ∘ permLayersD π.fwd) (edgeVar e i) = a (edgeVar e (π.fwd i))) ∧
+    (∀ i, (a ∘ permLayersD π.fwd) (wVar i) = a (wVar (π.fwd i))) :=
+  ⟨FP.kfdLP_perm inp a π _ (permLayersD_isLayerRenaming π.fwd) h, fun _ _ => rfl, fun _ => rfl⟩
+
+/-- every edge that is not ignored is used by some path of every solution of the `kPathCover` LP -/
+theorem kcover_uses_trusted (inp : FlowInput) (a : Asg) (hsat : Sat a (kcoverLP inp)) :
+    ∀ x ∈ kcoverTrusted inp, ∃ i, i < inp.cfg.k ∧ a (edgeVar x i) = 1 :=
+  FP.c05d_kcover_uses inp a hsat
+
+/-- every non-ignored edge of non-zero flow is used by some path of every solution of the `kFlowDecomp` LP -/
+theorem kfd_uses_trusted (inp : FlowInput) (a : Asg) (hsat : Sat a (kfdLP inp)) :
+    ∀ x ∈ kfdTrusted inp, ∃ i, i < inp.cfg.k ∧ a (edgeVar x i) = 1 :=
+  FP.c05d_kfd_uses inp a hsat
+
+/-- **C05 for `kPathCover`, every subset of the six safety flags.** On a well-formed user DAG, for the fragment
+`fr` that the constructor computes (`pathSafetyPipeline`; `X` any enumeration of trusted edges — the class passes
+the non-ignored edges — and no external lists): the LP built with the options (`kcoverLPS`, tied to the real
+constructor by K2) is feasible iff the LP without them is, and both have the same minimal objective (the class
+sets no objective: both minima are 0). -/
+theorem kcover_safety_options_preserve_optimum (inp : FlowInput) (hb : BaseWF inp.base) (hac : Acyclic inp.base)
+    (D : ConstraintDomain inp.st inp.cfg) (X : List Edge) (hX : ∀ x ∈ X, x ∈ kcoverTrusted inp)
+    (o : PathSafetyOpts) (fr : PathSafetyFrag) (h : pathSafetyPipeline inp.st inp.cfg X none o = .ok fr) :
+    ((∃ a, Sat a (kcoverLP inp)) ↔ (∃ a, Sat a (kcoverLPS inp fr))) ∧
+    (∀ v, IsMin (fun a => Sat a (kcoverLP inp)) (fun a => evalTerms a (kcoverLP inp).obj) v ↔
+      IsMin (fun a => Sat a (kcoverLPS inp fr)) (fun a => evalTerms a (kcoverLPS inp fr).obj) v) :=
+  FP.c05d_kcover_preserves inp hb hac D X hX o fr h
+
+/-- **`kFlowDecomp`'s flow-safe paths lie in some path of every solution — when nothing is ignored.** With no
+ignored edge (and flow attributes on graph edges only) every satisfying assignment of the k-model is a flow
+decomposition of the whole flow of the user's graph (C02 `kfd_exact`), so every path that the scan
+`flowSafePaths` reports — for whatever decomposition paths — lies completely in one layer (C06
+`excess_flow_safe`). With ignored edges this is false; before fix 3d0fcdd the class handed the paths over
+nevertheless (`harness/props/c05.py`, suite `K5.flow_safe_paths_with_ignored_edges`). -/
+theorem kfd_flow_safe_paths_in_layers (inp : FlowInput) (hb : BaseWF inp.base) (hac : Acyclic inp.base)
+    (hign : inp.ignore = []) (hends : inp.ends = [])
+    (hkeys : ∀ e q, inp.flow.lookup e = some q → e ∈ inp.base.edges)
+    (paths : List (List Node)) (out : List (List Edge)) (hout : flowSafePaths inp.base inp.flow paths = .ok out)
+    (a : Asg) (hsat : Sat a (kfdLP inp)) :
+    ∀ q ∈ out, ∃ i, i < inp.cfg.k ∧ ∀ e ∈ q, e ∈ inp.st.g.edges ∧ a (edgeVar e i) = 1 :=
+  FP.c05d_flowSafe_in_layers inp hb hac hign hends hkeys paths out hout a hsat
+
+/-- **C05 for `kFlowDecomp` (no given weights), every subset of the six safety flags, with or without flow-safe
+paths.** The k-model has no objective; the model with the options is feasible iff the model without them is.
+`external` is the option `external_safe_paths`: `none`, or the flow-safe paths that the class computes under
+`optimize_with_flow_safe_paths`; `kfdExternalOK` says where they come from — nothing is ignored and each of them
+is reported by the modelled scan for the captured decomposition paths (`lp.kfd.safety` refuses a request that
+violates it). `hends`: the class has no additional ends; `hkeys`: the flow attribute sits on graph edges. -/
+theorem kfd_safety_options_preserve_feasibility (inp : FlowInput) (hb : BaseWF inp.base) (hac : Acyclic inp.base)
+    (D : ConstraintDomain inp.st inp.cfg) (hends : inp.ends = [])
+    (hkeys : ∀ p ∈ inp.flow, p.1 ∈ inp.base.edges)
+    (X : List Edge) (hX : ∀ x ∈ X, x ∈ kfdTrusted inp)
+    (external : Option (List (List Edge))) (decompPaths : List (List Node))
+    (hext : kfdExternalOK inp external decompPaths = true)
+    (o : PathSafetyOpts) (fr : PathSafetyFrag)
+    (h : pathSafetyPipeline inp.st inp.cfg X external o = .ok fr) :
+    (∃ a, Sat a (kfdLP inp)) ↔ (∃ a, Sat a (kfdLPS inp fr)) :=
+  FP.c05d_kfd_preserves_full inp hb hac D hends hkeys X hX external decompPaths hext o fr h
+
+/-! ### Non-vacuity: the diamond `a→b→d`, `a→c→d` (flows 3, 2; constraint `[(a,b),(b,d)]`; `k = 2`) -/
+
+/-- safe sequences of the trusted edges and of the constraint, appended as subpath constraints -/
+def diamondOpts : PathSafetyOpts :=
+  { safeSequences := true, constraintSequences := true, asSubpath := true, zeroEdges := true, largestAntichain := true }
+
+/-- the five lists `__init__` assembles: one per trusted edge (bridges to the source and to the sink), one for
+the constraint -/
+def diamondLists : List (List Edge) :=
+  [[("source", "a"), ("a", "b"), ("b", "d"), ("d", "sink")],
+   [("source", "a"), ("a", "c"), ("c", "d"), ("d", "sink")],
+   [("source", "a"), ("a", "b"), ("b", "d"), ("d", "sink")],
+   [("source", "a"), ("a", "c"), ("c", "d"), ("d", "sink")],
+   [("source", "a"), ("a", "b"), ("b", "d"), ("d", "sink")]]
+
+set_option maxRecDepth 100000 in
+theorem diamond_safeLists :
+    pathSafeLists FP.DecompExample.inp.st FP.DecompExample.inp.cfg (kfdTrusted FP.DecompExample.inp) none
+      diamondOpts = .ok diamondLists := by decide +kernel
+
+theorem diamond_pipeline :
+    pathSafetyPipeline FP.DecompExample.inp.st FP.DecompExample.inp.cfg (kfdTrusted FP.DecompExample.inp) none
+      diamondOpts = .ok (pathSafetyExtra diamondLists diamondOpts) := by
+  unfold pathSafetyPipeline
+  rw [diamond_safeLists]
+  rfl
+
+theorem diamond_domain : ConstraintDomain FP.DecompExample.inp.st FP.DecompExample.inp.cfg where
+  edges := by decide
+  cov := fun _ => by decide +kernel
+  covLen := fun cl h => by cases h
+  len := fun e _ => by
+    show (0 : Rat) ≤ 1
+    decide +kernel
+  lenPos := fun h => by cases h
+
+/-- the diamond instance is feasible without the options (C03), hence — by the theorem — with the five safe lists
+appended to its subpath constraints -/
+example : ∃ a, Sat a (kfdLPS FP.DecompExample.inp (pathSafetyExtra diamondLists diamondOpts)) := by
+  have hbase : ∃ a, Sat a (kfdLP FP.DecompExample.inp) :=
+    ⟨_, FP.Props.C03.kfd_complete FP.DecompExample.inp 2 FP.DecompExample.base_wf FP.DecompExample.base_acyclic
+      FP.DecompExample.plain FP.DecompExample.P FP.DecompExample.w FP.DecompExample.isDecomp (by
+        intro i hi
+        rw [FP.DecompExample.wmax_eq]
+        have : i = 0 ∨ i = 1 := by omega
+        rcases this with rfl | rfl <;> decide +kernel)⟩
+  exact (kfd_safety_options_preserve_feasibility FP.DecompExample.inp FP.DecompExample.base_wf
+    FP.DecompExample.base_acyclic diamond_domain rfl (by decide) _ (fun _ h => h) none [] rfl diamondOpts _
+    diamond_pipeline).1 hbase
+
+/-- the class defaults on the diamond: flow-safe paths (what the scan reports for the greedy decomposition
+`a b d`, `a c d`), the constraint's safe sequence, everything appended as subpath constraints -/
+def diamondFlowSafe : List (List Edge) := [[("a", "b"), ("b", "d")], [("a", "c"), ("c", "d")]]
+def diamondOptsFS : PathSafetyOpts := { constraintSequences := true, asSubpath := true, zeroEdges := true }
+
+set_option maxRecDepth 100000 in
+theorem diamond_externalOK :
+    kfdExternalOK FP.DecompExample.inp (some diamondFlowSafe) [["a", "b", "d"], ["a", "c", "d"]] = true := by
+  decide +kernel
+
+set_option maxRecDepth 100000 in
+theorem diamond_safeLists_fs :
+    pathSafeLists FP.DecompExample.inp.st FP.DecompExample.inp.cfg (kfdTrusted FP.DecompExample.inp)
+      (some diamondFlowSafe) diamondOptsFS =
+    .ok (diamondFlowSafe ++ [[("source", "a"), ("a", "b"), ("b", "d"), ("d", "sink")]]) := by decide +kernel
+
+example : ∃ a, Sat a (kfdLPS FP.DecompExample.inp (pathSafetyExtra
+    (diamondFlowSafe ++ [[("source", "a"), ("a", "b"), ("b", "d"), ("d", "sink")]]) diamondOptsFS)) := by
+  have hbase : ∃ a, Sat a (kfdLP FP.DecompExample.inp) :=
+    ⟨_, FP.Props.C03.kfd_complete FP.DecompExample.inp 2 FP.DecompExample.base_wf FP.DecompExample.base_acyclic
+      FP.DecompExample.plain FP.DecompExample.P FP.DecompExample.w FP.DecompExample.isDecomp (by
+        intro i hi
+        rw [FP.DecompExample.wmax_eq]
+        have : i = 0 ∨ i = 1 := by omega
+        rcases this with rfl | rfl <;> decide +kernel)⟩
+  have hpipe : pathSafetyPipeline FP.DecompExample.inp.st FP.DecompExample.inp.cfg
+      (kfdTrusted FP.DecompExample.inp) (some diamondFlowSafe) diamondOptsFS = .ok (pathSafetyExtra
+        (diamondFlowSafe ++ [[("source", "a"), ("a", "b"), ("b", "d"), ("d", "sink")]]) diamondOptsFS) := by
+    unfold pathSafetyPipeline
+    rw [diamond_safeLists_fs]
+    rfl
+  exact (kfd_safety_options_preserve_feasibility FP.DecompExample.inp FP.DecompExample.base_wf
+    FP.DecompExample.base_acyclic diamond_domain rfl (by decide) _ (fun _ h => h) _ _ diamond_externalOK
+    diamondOptsFS _ hpipe).1 hbase
+
+/-- the same flags without `optimize_with_safety_as_subpath_constraints`: the LP does not change at all -/
+example : kfdLPS FP.DecompExample.inp (pathSafetyExtra diamondLists { diamondOpts with asSubpath := false })
+    = kfdLP FP.DecompExample.inp :=
+  (dag_safety_flags_lp_identical diamondLists _ rfl).1 _
+
+/-- the configuration of C09's example `a→b→c`, `a→c` is inside the documented domain -/
+theorem inp2_domain : ConstraintDomain FP.Props.C09.inp2.st FP.Props.C09.inp2.cfg where
+  edges := by decide
+  cov := fun _ => by decide +kernel
+  covLen := fun cl h => by cases h
+  len := fun e _ => by
+    show (0 : Rat) ≤ 1
+    decide +kernel
+  lenPos := fun h => by cases h
+
+/-- `kPathCover` on `a→b→c`, `a→c` (`k = 2`, C09): safe paths appended as constraints keep the LP feasible -/
+example : ∀ fr, pathSafetyPipeline FP.Props.C09.inp2.st FP.Props.C09.inp2.cfg (kcoverTrusted FP.Props.C09.inp2) none
+      { safePaths := true, asSubpath := true } = .ok fr → ∃ a, Sat a (kcoverLPS FP.Props.C09.inp2 fr) := by
+  intro fr h
+  exact ((kcover_safety_options_preserve_optimum FP.Props.C09.inp2 FP.PathCoreExample.base_wf
+    FP.PathCoreExample.base_acyclic inp2_domain _ (fun _ h => h) _ fr h).1).1 ⟨_, FP.Props.C09.sat2⟩
+
+set_option maxRecDepth 100000 in
+/-- … and `__init__` does assemble lists there: the three univocal extensions -/
+theorem inp2_safeLists :
+    pathSafeLists FP.Props.C09.inp2.st FP.Props.C09.inp2.cfg (kcoverTrusted FP.Props.C09.inp2) none
+      { safePaths := true, asSubpath := true } =
+    .ok [[("source", "a"), ("a", "b"), ("b", "c"), ("c", "sink")],
+         [("source", "a"), ("a", "c"), ("c", "sink")],
+         [("source", "a"), ("a", "b"), ("b", "c"), ("c", "sink")]] := by decide +kernel
 
 end FP.Props.C05
